@@ -6,7 +6,7 @@ import tempfile
 import zlib
 
 from engine import gen_states, pool_map
-from readers import parse_cigar, run_cli, split_tag, write_text, workdir, lines_of
+from readers import read_out, parse_cigar, run_cli, split_tag, write_text, workdir, lines_of
 
 SMALL = {"s1": "ACG", "s2": "TTA", "s3": "GC"}
 SMALL_LINKS = [("s1", "+", "s2", "+"), ("s2", "+", "s3", "+"), ("s1", "+", "s3", "-"), ("s2", "+", "s2", "-")]
@@ -72,7 +72,7 @@ def run_batch(job):
         if zlib.crc32(("decoy" + str(bid)).encode()) % 3 == 0 and recs:
             # an earlier call in the same process on ANOTHER graph stored under the same file name (an earlier version of it):
             # nothing of it may survive into the real call
-            real = open(gfa).read()
+            real = read_out(gfa)
             comp = {"A": "C", "C": "G", "G": "T", "T": "A"}
             with open(gfa, "w") as f:
                 for n, sq in seq.items():
@@ -92,7 +92,7 @@ def run_batch(job):
         gc.collect()
         olines = {}
         if os.path.exists(out):
-            for l in lines_of(open(out).read()):
+            for l in lines_of(read_out(out)):
                 olines.setdefault(l.split("\t")[0], l)
         cases = []
         st = res["status"] if res["status"] == "ok" else res["status"] + ":" + res["exc"][:50]
